@@ -371,7 +371,7 @@ func dbCounts(path string) map[string]any {
 
 // dbRows: the identifying columns of every row, read from the database file itself.
 func dbRows(path string) map[string]any {
-	out := map[string]any{"ok": false, "err": "", "promises": []any{}, "callbacks": []any{}, "tasks": []any{}, "schedules": []any{}, "locks": []any{}}
+	out := map[string]any{"ok": false, "err": "", "corrupt": false, "promises": []any{}, "callbacks": []any{}, "tasks": []any{}, "schedules": []any{}, "locks": []any{}}
 	if _, err := os.Stat(path); err != nil {
 		out["ok"] = true // no file: no rows
 		return out
@@ -387,6 +387,19 @@ func dbRows(path string) map[string]any {
 	db.SetMaxOpenConns(1)
 	ok := true
 	out["err"] = ""
+	out["corrupt"] = false
+	{
+		var verdict string
+		if err := db.QueryRow(`PRAGMA integrity_check`).Scan(&verdict); err != nil {
+			if strings.Contains(err.Error(), "malformed") || strings.Contains(err.Error(), "not a database") || strings.Contains(err.Error(), "corrupt") {
+				out["corrupt"] = true
+				out["err"] = err.Error()
+			}
+		} else if verdict != "ok" {
+			out["corrupt"] = true
+			out["err"] = "integrity_check: " + verdict
+		}
+	}
 	query := func(q string, n int, mk func(v []any) map[string]any) []any {
 		list := []any{}
 		var rows *sql.Rows
@@ -402,6 +415,9 @@ func dbRows(path string) map[string]any {
 			if !strings.Contains(err.Error(), "no such table") {
 				ok = false
 				out["err"] = err.Error()
+				if strings.Contains(err.Error(), "malformed") || strings.Contains(err.Error(), "corrupt") {
+					out["corrupt"] = true
+				}
 			}
 			return list
 		}
@@ -414,9 +430,17 @@ func dbRows(path string) map[string]any {
 			}
 			if err := rows.Scan(ptr...); err != nil {
 				ok = false
+				out["err"] = err.Error()
 				return list
 			}
 			list = append(list, mk(v))
+		}
+		if err := rows.Err(); err != nil {
+			ok = false
+			out["err"] = err.Error()
+			if strings.Contains(err.Error(), "malformed") || strings.Contains(err.Error(), "corrupt") {
+				out["corrupt"] = true
+			}
 		}
 		return list
 	}
@@ -479,6 +503,20 @@ func (x *exec_) doBurst(o *stepObs, st *step, now int64) {
 			x.httpOnce(ro, r, now)
 			results[i] = res{Name: r.Name, Replied: ro.Replied, Code: ro.Code, Class: ro.Class}
 		}(i)
+	}
+	if st.Grow > 0 {
+		// kill in the middle of the writing: as soon as the file has grown by Grow bytes (or after 2 s)
+		size := func() int64 {
+			if fi, err := os.Stat(x.srv.db); err == nil {
+				return fi.Size()
+			}
+			return 0
+		}
+		base := size()
+		deadline := time.Now().Add(2 * time.Second)
+		for time.Now().Before(deadline) && size()-base < st.Grow {
+			time.Sleep(100 * time.Microsecond)
+		}
 	}
 	time.Sleep(time.Duration(st.Ms) * time.Millisecond)
 	gone := x.srv.signal(syscall.SIGKILL, 5*time.Second)
